@@ -1,0 +1,8 @@
+//go:build verif
+
+package tubes
+
+import "hop.computer/hop/common"
+
+// verifYield forwards to the callback installed with common.SetVerifYield.
+func verifYield(point string) { common.VerifYield(point) }
